@@ -81,7 +81,12 @@ var meshMenu = map[string]meshDef{
 	"B65535": {id: "B65535", seed: 6, n: 65535, idx: bigIdx(65535), attrs: []string{modeling.PositionAttribute, modeling.TexCoordAttribute}},
 	"B65536": {id: "B65536", seed: 7, n: 65536, idx: bigIdx(65536), attrs: []string{modeling.PositionAttribute, modeling.TexCoordAttribute}},
 	"B65537": {id: "B65537", seed: 8, n: 65537, idx: bigIdx(65537), attrs: []string{modeling.PositionAttribute, modeling.TexCoordAttribute}},
+	// payload threshold: 2 796 203 positions are 33 554 436 bytes — the first count whose binary payload
+	// exceeds 32 MiB (a writer that stages, encodes or copies the payload in blocks shows there)
+	"H": {id: "H", seed: 9, n: hugeN, idx: bigIdx(hugeN), attrs: []string{modeling.PositionAttribute}},
 }
+
+const hugeN = 2796203
 
 // meshDefOf resolves a mesh id: a menu entry, or a value-ladder mesh "V<r>" — a welded two-triangle
 // mesh (and "W<r>", a point cloud) whose Position, Normal and TexCoord components are consecutive
